@@ -10,6 +10,7 @@ import (
 // written so that choice 0 is the simplest alternative.
 
 type Gen struct {
+	ThreeQERs bool // sessions may carry three QERs per PDR (the session-wide limiter anywhere in the list)
 	r *Run
 	// per-run universe
 	nextUE    uint32
@@ -207,7 +208,11 @@ func (g *Gen) Session(p *Peer, sh SessShape) *CPSession {
 		s.FARs[1] = &FARSpec{ID: 2, Action: ActBUFF | ActNOCP}
 	}
 	if g.PlainQER && sh.NQER > 2 {
-		sh.NQER = 2
+		if g.ThreeQERs && sh.NQER > 3 {
+			sh.NQER = 3
+		} else if !g.ThreeQERs {
+			sh.NQER = 2
+		}
 	}
 	for i := 0; i < sh.NQER; i++ {
 		q := g.QER(uint32(i + 1))
@@ -241,10 +246,22 @@ func (g *Gen) Session(p *Peer, sh SessShape) *CPSession {
 		}
 		s.PDRs = append(s.PDRs, ul, dl)
 	}
+	rot := 0
+	if g.ThreeQERs && len(s.QERs) == 3 {
+		// three QERs per PDR: the one that ends up as the session-wide limiter (largest
+		// MBR: the last created) may stand first, in the middle or last in the lists
+		rot = g.c(3, "qer-list-rotation")
+	}
 	qerList := func() []uint32 {
 		var l []uint32
 		for _, q := range s.QERs {
 			l = append(l, q.ID)
+		}
+		for i := 0; i < rot && len(l) > 1; i++ {
+			l = append([]uint32{l[len(l)-1]}, l[:len(l)-1]...)
+		}
+		if rot == 2 && len(l) == 3 {
+			l[0], l[1] = l[1], l[0] // [1 3 2]: the limiter in the middle
 		}
 		return l
 	}
